@@ -3,18 +3,42 @@ Regenerates lean/PedalModel/Gen/AssertionConds.lean from the tree under test.
 
 * For every runtime assertion class of pedal/assertions/runtime.py the body of the `condition`
   method it uses (own or inherited, found through the MRO) is read from the *source AST* and turned
-  into a `Pedal.Assertions.CondExpr`.  Local assignments and `if` statements are eliminated
-  symbolically (an `if` becomes `CondExpr.ite`).  Anything outside the understood subset makes the
-  whole condition `CondExpr.opaque <source>` — the model then answers `unmodelled` and no theorem
-  about that assertion can be proved.
+  into a `Pedal.Assertions.CondExpr`.  The reading is SEMANTIC, not syntactic:
+
+  - statements are executed symbolically along every path (an `if` becomes `CondExpr.ite` whose
+    arms each continue with the rest of the body, so early return / else / merged locals / a
+    conditional expression all give the same decision tree); local names (also tuple assignments,
+    rebinding of a parameter) are followed;
+  - calls of pedal's own plain functions (module-level helpers of any pedal module), of methods and
+    static methods reached through `self`, and of `super().condition(...)` are INLINED (the callee's
+    body is translated with its parameters bound to the translated arguments);
+  - `self.<attr>` reads a class attribute of the concrete assertion class (a bool/None constant, a
+    function of the `operator` module, or a function that is then inlined);
+  - `operator.lt(a, b)`, `a not in b` / `not (a in b)`, `any(x not in h ...)` / `all(x in h ...)` /
+    the explicit loop with early return are understood as the relations they are.
+
+  The functions taken as primitives are not trusted by name: `errors` and `unwrap_value` are
+  PROBED on the tree under test (real operand wrappers / real proxies) and `equality_test`, `re`
+  and the builtins must be the very objects the names are expected to denote in the module that
+  uses them.
+
+  A possibly-raising expression bound to a name (or passed to an inlined helper) must be evaluated
+  on every path of what follows, otherwise substituting it would lose the exception: such a body is
+  not understood.  Anything outside the understood subset makes the whole condition
+  `CondExpr.opaque <source>` — the model then answers `unmodelled` and no theorem about that
+  assertion can be proved.
 * The guard `RuntimeAssertionFeedback.__init__` puts around the condition is *measured*: a probe
   assertion whose condition raises / whose operand is an error is constructed and observed.
 """
 import ast
+import builtins
 import hashlib
 import inspect
+import operator
 import os
+import sys
 import textwrap
+import types
 
 from common import LEAN_DIR, lean_str, use_repo, write_if_changed
 
@@ -22,188 +46,628 @@ TYPE_NAMES = {"int": "int", "float": "float", "bool": "bool", "str": "str", "lis
               "set": "set", "dict": "dict", "object": "object", "Exception": "exception", "type": "type"}
 CMP = {ast.Lt: "lt", ast.LtE: "le", ast.Gt: "gt", ast.GtE: "ge", ast.Eq: "eq", ast.NotEq: "ne",
        ast.In: "in_", ast.NotIn: "notIn", ast.Is: "is_", ast.IsNot: "isNot"}
+# functions of the `operator` module: (kind, arity)
+OPERATOR_FUNCS = {"lt": "lt", "le": "le", "gt": "gt", "ge": "ge", "eq": "eq", "ne": "ne", "is_": "is_",
+                  "is_not": "isNot", "contains": "contains", "not_": "not_", "truth": "truth"}
+MAX_INLINE_DEPTH = 8
 
 
 class Untranslatable(Exception):
     pass
 
 
+# ----------------------------------------------------------------------------------------------
+# symbolic values
+#
+# A CondExpr is a tuple (constructor, children...).  Things a name can denote that are not
+# CondExprs start with "@": the operand wrappers, `self`, a function to call.
+
+def SIDE(s):
+    return ("@side", s)
+
+
+SELF = ("@self",)
+
+
+def is_tree(v):
+    return isinstance(v, tuple) and v and isinstance(v[0], str) and not v[0].startswith("@")
+
+
+LEAF_RENDER = {"noneLit": ".noneLit", "errors2": ".errors2"}
+
+
+def render(t):
+    """Lean text of a CondExpr tree (parenthesised unless it is a bare constructor)."""
+    k = t[0]
+    if k == "bound":
+        return render(t[2])
+    if k in LEAF_RENDER:
+        return LEAF_RENDER[k]
+    if k in ("value", "isSandboxed", "errors1", "output"):
+        return "(.%s .%s)" % (k, t[1])
+    if k == "param":
+        return "(.param %s)" % lean_str(t[1])
+    if k == "boolLit":
+        return "(.boolLit %s)" % ("true" if t[1] else "false")
+    if k == "tyLit":
+        return "(.tyLit .%s)" % t[1]
+    if k == "cmp":
+        return "(.cmp .%s %s %s)" % (t[1], render(t[2]), render(t[3]))
+    return "(.%s %s)" % (k, " ".join(render(c) for c in t[1:]))
+
+
+TOTAL_CMP = {"eq", "ne", "is_", "isNot"}
+
+
+def total(t):
+    """The model's `eval` of `t` cannot be an error (so binding it to a name loses nothing)."""
+    k = t[0]
+    if k == "bound":
+        return total(t[2])
+    if k in ("value", "isSandboxed", "param", "noneLit", "boolLit", "tyLit", "errors1", "errors2"):
+        return True
+    if k in ("unwrap", "not_", "bool_", "str_", "hasDataclassFields"):
+        return total(t[1])
+    if k in ("tuple2", "or_", "and_"):
+        return total(t[1]) and total(t[2])
+    if k == "ite":
+        return total(t[1]) and total(t[2]) and total(t[3])
+    if k == "cmp":
+        return t[1] in TOTAL_CMP and total(t[2]) and total(t[3])
+    return False
+
+
+def strict_ids(t):
+    """Ids of the bound sub-expressions that are evaluated whenever `t` evaluates without error."""
+    k = t[0]
+    if k == "bound":
+        return {t[1]} | strict_ids(t[2])
+    if k in ("value", "isSandboxed", "param", "noneLit", "boolLit", "tyLit", "errors1", "errors2", "output"):
+        return set()
+    if k in ("or_", "and_"):
+        return strict_ids(t[1])
+    if k == "ite":
+        return strict_ids(t[1]) | (strict_ids(t[2]) & strict_ids(t[3]))
+    if k == "cmp":
+        return strict_ids(t[2]) | strict_ids(t[3])
+    out = set()
+    for c in t[1:]:
+        if is_tree(c):
+            out |= strict_ids(c)
+    return out
+
+
+# ----------------------------------------------------------------------------------------------
+# probes of the functions taken as primitives
+
+_probe_cache = {}
+
+
+def probe_errors(fn):
+    """`fn(*wrappers)` is "some wrapper holds an error" on real operand wrappers (0, 1, 2, 3 of them)."""
+    key = ("errors", id(fn))
+    if key not in _probe_cache:
+        import itertools
+        from pedal.assertions.feedbacks import SandboxedValue, ExactValue
+        ok = True
+        try:
+            for n in range(0, 4):
+                for flags in itertools.product([False, True], repeat=n):
+                    ws = [(SandboxedValue if i % 2 == 0 else ExactValue)(ValueError("probe") if f else i)
+                          for i, f in enumerate(flags)]
+                    got = fn(*ws)
+                    if got is not any(flags):
+                        ok = False
+        except Exception:
+            ok = False
+        _probe_cache[key] = ok
+    return _probe_cache[key]
+
+
+def probe_unwrap(fn):
+    """`fn(x)` is x itself for a plain object and the underlying object for a real SandboxResult proxy."""
+    key = ("unwrap", id(fn))
+    if key not in _probe_cache:
+        import assertions_common as ac
+        ok = True
+        try:
+            ac.setup()
+            for obj in (5, 2.5, "text", None, True, [1, 2], (1,), {1}, {"a": 1}, int, object(), ValueError("x")):
+                if fn(obj) is not obj:
+                    ok = False
+                if obj is not None and fn(ac.proxy_of(obj)) is not obj:
+                    ok = False
+        except Exception:
+            ok = False
+        _probe_cache[key] = ok
+    return _probe_cache[key]
+
+
+# ----------------------------------------------------------------------------------------------
+
+def function_ast(fn):
+    """FunctionDef of a plain Python function (no decorators, no closure)."""
+    if fn.__closure__ and fn.__code__.co_freevars != ("__class__",):      # (`super()` needs the __class__ cell)
+        raise Untranslatable("closure %s" % fn.__name__)
+    try:
+        src = textwrap.dedent(inspect.getsource(fn))
+        node = ast.parse(src).body[0]
+    except (OSError, TypeError, SyntaxError, IndexError):
+        raise Untranslatable("no source for %s" % getattr(fn, "__name__", "?"))
+    if not isinstance(node, ast.FunctionDef) or node.decorator_list:
+        # a staticmethod's decorator is part of the source text; the caller has already unwrapped it
+        if not (isinstance(node, ast.FunctionDef)
+                and all(isinstance(d, ast.Name) and d.id == "staticmethod" for d in node.decorator_list)):
+            raise Untranslatable("decorated function %s" % fn.__name__)
+    return node
+
+
+def in_pedal(fn):
+    return isinstance(fn, types.FunctionType) and (fn.__module__ or "").split(".")[0] == "pedal"
+
+
 class CondTranslator:
-    def __init__(self, funcdef):
-        args = [a.arg for a in funcdef.args.args]
-        if len(args) < 3 or funcdef.args.vararg or funcdef.args.kwarg or funcdef.args.kwonlyargs:
-            raise Untranslatable("signature")
-        self.self_name = args[0]
-        self.sides = {args[1]: "left", args[2]: "right"}
-        self.params = set(args[3:])
+    def __init__(self, cls, owner, funcdef):
+        self.cls = cls
+        self.owner = owner
         self.funcdef = funcdef
+        self.next_id = 0
+        self.depth = 0
+        # where global names of the code being read are looked up, and whose `super()` it is
+        self.globals = vars(sys.modules[owner.__module__])
+        self.super_after = owner
 
-    # ---- statements -------------------------------------------------------
+    # ---- entry --------------------------------------------------------------------------
     def run(self):
-        kind, val = self.block(list(self.funcdef.body), {})
-        if kind != "ret":
-            raise Untranslatable("falls off the end")
-        return val
+        fd = self.funcdef
+        args = [a.arg for a in fd.args.args]
+        if len(args) < 3 or fd.args.vararg or fd.args.kwarg or fd.args.kwonlyargs or fd.args.posonlyargs:
+            raise Untranslatable("signature")
+        env = {args[0]: SELF, args[1]: SIDE("left"), args[2]: SIDE("right")}
+        for p in args[3:]:
+            env[p] = ("param", p)
+        return self.block(list(fd.body), env, self.fell_off)
 
-    def block(self, stmts, env):
+    def fell_off(self, env):
+        raise Untranslatable("falls off the end")
+
+    def fresh(self):
+        self.next_id += 1
+        return self.next_id
+
+    def bind(self, value):
+        """What a name is bound to; returns (symbolic value, id to check or None)."""
+        if is_tree(value) and not total(value):
+            i = self.fresh()
+            return ("bound", i, value), i
+        return value, None
+
+    def check_used(self, ids, result, what):
+        missing = [i for i in ids if i is not None and i not in strict_ids(result)]
+        if missing:
+            raise Untranslatable("%s: a possibly-raising expression is not evaluated on every path" % what)
+
+    # ---- statements ---------------------------------------------------------------------
+    def block(self, stmts, env, k):
+        """Translate `stmts` then continue with `k(env)` when control falls off the end."""
         if not stmts:
-            return "fall", env
+            return k(env)
         s, rest = stmts[0], stmts[1:]
         if isinstance(s, ast.Expr) and isinstance(s.value, ast.Constant) and isinstance(s.value.value, str):
-            return self.block(rest, env)
+            return self.block(rest, env, k)
+        if isinstance(s, ast.Pass):
+            return self.block(rest, env, k)
         if isinstance(s, ast.Return):
             if s.value is None:
                 raise Untranslatable("bare return")
-            return "ret", self.expr(s.value, env)
+            return self.expr(s.value, env)
+        if isinstance(s, ast.AnnAssign) and s.value is not None and s.simple and isinstance(s.target, ast.Name):
+            s = ast.Assign(targets=[s.target], value=s.value)
         if isinstance(s, ast.Assign):
-            if len(s.targets) != 1 or not isinstance(s.targets[0], ast.Name):
+            if len(s.targets) != 1:
+                raise Untranslatable("chained assignment")
+            tgt = s.targets[0]
+            if isinstance(tgt, ast.Name):
+                pairs = [(tgt.id, self.val(s.value, env))]
+            elif (isinstance(tgt, (ast.Tuple, ast.List)) and isinstance(s.value, (ast.Tuple, ast.List))
+                  and len(tgt.elts) == len(s.value.elts) and all(isinstance(e, ast.Name) for e in tgt.elts)
+                  and not any(isinstance(e, ast.Starred) for e in s.value.elts)):
+                pairs = [(t.id, self.val(v, env)) for t, v in zip(tgt.elts, s.value.elts)]
+            else:
                 raise Untranslatable("assignment target")
             env2 = dict(env)
-            env2[s.targets[0].id] = self.expr(s.value, env)
-            return self.block(rest, env2)
+            ids = []
+            for name, v in pairs:
+                v, i = self.bind(v)
+                ids.append(i)
+                env2[name] = v
+            result = self.block(rest, env2, k)
+            self.check_used(ids, result, "assignment")
+            return result
         if isinstance(s, ast.If):
             t = self.expr(s.test, env)
-            k1, v1 = self.block(list(s.body), env)
-            k2, v2 = self.block(list(s.orelse), env)
-            if k1 == "ret" and k2 == "ret":
-                return "ret", "(.ite %s %s %s)" % (t, v1, v2)
-            if k1 == "ret":
-                k, v = self.block(rest, v2)
-                if k != "ret":
-                    raise Untranslatable("if/fall")
-                return "ret", "(.ite %s %s %s)" % (t, v1, v)
-            if k2 == "ret":
-                k, v = self.block(rest, v1)
-                if k != "ret":
-                    raise Untranslatable("if/fall")
-                return "ret", "(.ite %s %s %s)" % (t, v, v2)
-            merged = {}
-            for name in set(v1) | set(v2):
-                a = v1.get(name)
-                b = v2.get(name)
-                if a is None or b is None:
-                    # defined on one path only: using it later would be a NameError on the other
-                    base = self.name_default(name)
-                    a = a if a is not None else base
-                    b = b if b is not None else base
-                merged[name] = a if a == b else "(.ite %s %s %s)" % (t, a, b)
-            return self.block(rest, merged)
+            a = self.block(list(s.body), env, lambda e: self.block(rest, e, k))
+            b = self.block(list(s.orelse), env, lambda e: self.block(rest, e, k))
+            return ("ite", t, a, b)
+        if isinstance(s, ast.For):
+            return self.for_loop(s, rest, env)
         raise Untranslatable(type(s).__name__)
 
-    def name_default(self, name):
-        raise Untranslatable("variable %s bound on one path only" % name)
+    def for_loop(self, s, rest, env):
+        """`for x in NEEDLES: if x not in HAY: return <b>` followed by `return <not b>`."""
+        if (s.orelse or not isinstance(s.target, ast.Name) or len(s.body) != 1 or not isinstance(s.body[0], ast.If)
+                or s.body[0].orelse or len(s.body[0].body) != 1 or not isinstance(s.body[0].body[0], ast.Return)
+                or not rest or not isinstance(rest[0], ast.Return)):
+            raise Untranslatable("for loop")
+        inner, after = s.body[0].body[0].value, rest[0].value
+        if not (isinstance(inner, ast.Constant) and isinstance(after, ast.Constant)
+                and isinstance(inner.value, bool) and isinstance(after.value, bool) and inner.value != after.value):
+            raise Untranslatable("for loop results")
+        found_missing = self.membership_elt(s.body[0].test, s.target.id, env)   # (negated?, hay)
+        if found_missing is None:
+            raise Untranslatable("for loop test")
+        negated, hay = found_missing
+        if not negated:
+            raise Untranslatable("for loop: any-in")
+        # the loop returns `inner` as soon as some element is missing, else `after`
+        all_in = ("allIn", self.expr(s.iter, env), hay)
+        return ("not_", all_in) if inner.value else all_in
 
-    # ---- expressions ------------------------------------------------------
-    def side_of(self, node, env):
-        if isinstance(node, ast.Name) and node.id in self.sides and node.id not in env:
-            return self.sides[node.id]
+    def membership_elt(self, elt, var, env):
+        """`var in HAY` / `var not in HAY` / `not (var in HAY)` -> (negated, HAY tree)."""
+        negated = False
+        while isinstance(elt, ast.UnaryOp) and isinstance(elt.op, ast.Not):
+            negated = not negated
+            elt = elt.operand
+        if not (isinstance(elt, ast.Compare) and len(elt.ops) == 1 and isinstance(elt.ops[0], (ast.In, ast.NotIn))
+                and isinstance(elt.left, ast.Name) and elt.left.id == var):
+            return None
+        if isinstance(elt.ops[0], ast.NotIn):
+            negated = not negated
+        env2 = {k: v for k, v in env.items() if k != var}
+        hay_node = elt.comparators[0]
+        if any(isinstance(n, ast.Name) and n.id == var for n in ast.walk(hay_node)):
+            return None
+        return negated, self.expr(hay_node, env2)
+
+    # ---- expressions --------------------------------------------------------------------
+    def expr(self, n, env):
+        v = self.val(n, env)
+        if not is_tree(v):
+            raise Untranslatable("not a value: %s" % ast.unparse(n))
+        return v
+
+    def side_of(self, n, env):
+        v = self.val(n, env)
+        if isinstance(v, tuple) and v[0] == "@side":
+            return v[1]
         return None
 
-    def expr(self, n, env):
+    def global_name(self, name):
+        if name in self.globals:
+            return True, self.globals[name]
+        if hasattr(builtins, name):
+            return True, getattr(builtins, name)
+        return False, None
+
+    def val(self, n, env):
         if isinstance(n, ast.Constant):
             if n.value is None:
-                return ".noneLit"
+                return ("noneLit",)
             if n.value is True:
-                return "(.boolLit true)"
+                return ("boolLit", True)
             if n.value is False:
-                return "(.boolLit false)"
+                return ("boolLit", False)
             raise Untranslatable("constant %r" % (n.value,))
         if isinstance(n, ast.Name):
             if n.id in env:
                 return env[n.id]
-            if n.id in self.params:
-                return "(.param %s)" % lean_str(n.id)
-            if n.id in TYPE_NAMES:
-                return "(.tyLit .%s)" % TYPE_NAMES[n.id]
-            raise Untranslatable("name %s" % n.id)
+            found, obj = self.global_name(n.id)
+            if not found:
+                raise Untranslatable("name %s" % n.id)
+            return self.python_object(obj, n.id)
         if isinstance(n, ast.Attribute):
-            side = self.side_of(n.value, env)
-            if side and n.attr == "value":
-                return "(.value .%s)" % side
-            if side and n.attr == "is_sandboxed":
-                return "(.isSandboxed .%s)" % side
-            if n.attr == "_actual_value":
-                return "(.actualValue %s)" % self.expr(n.value, env)
+            base = self.val(n.value, env)
+            if base[0] == "@side":
+                if n.attr == "value":
+                    return ("value", base[1])
+                if n.attr == "is_sandboxed":
+                    return ("isSandboxed", base[1])
+                if n.attr == "is_error":
+                    return ("errors1", base[1])
+                raise Untranslatable("operand attribute .%s" % n.attr)
+            if base == SELF:
+                return self.self_attribute(n.attr)
+            if base[0] == "@module":
+                if base[1] is operator and n.attr in OPERATOR_FUNCS and getattr(operator, n.attr, None) is not None:
+                    return ("@op", OPERATOR_FUNCS[n.attr])
+                if base[1] is __import__("re") and n.attr == "search":
+                    return ("@re.search",)
+                raise Untranslatable("module attribute .%s" % n.attr)
+            if is_tree(base) and n.attr == "_actual_value":
+                return ("actualValue", base)
+            if is_tree(base) and n.attr == "lower":
+                return ("@lower", base)
             raise Untranslatable("attribute .%s" % n.attr)
         if isinstance(n, ast.IfExp):
-            return "(.ite %s %s %s)" % (self.expr(n.test, env), self.expr(n.body, env), self.expr(n.orelse, env))
+            return ("ite", self.expr(n.test, env), self.expr(n.body, env), self.expr(n.orelse, env))
         if isinstance(n, ast.UnaryOp) and isinstance(n.op, ast.Not):
-            return "(.not_ %s)" % self.expr(n.operand, env)
+            return ("not_", self.expr(n.operand, env))
         if isinstance(n, ast.BoolOp):
-            ctor = ".or_" if isinstance(n.op, ast.Or) else ".and_"
+            ctor = "or_" if isinstance(n.op, ast.Or) else "and_"
             vals = [self.expr(v, env) for v in n.values]
             out = vals[-1]
             for v in reversed(vals[:-1]):
-                out = "(%s %s %s)" % (ctor, v, out)
+                out = (ctor, v, out)
             return out
         if isinstance(n, ast.Compare):
             if len(n.ops) != 1 or type(n.ops[0]) not in CMP:
                 raise Untranslatable("comparison chain")
-            return "(.cmp .%s %s %s)" % (CMP[type(n.ops[0])], self.expr(n.left, env), self.expr(n.comparators[0], env))
+            return ("cmp", CMP[type(n.ops[0])], self.expr(n.left, env), self.expr(n.comparators[0], env))
         if isinstance(n, ast.Tuple) and len(n.elts) == 2:
-            return "(.tuple2 %s %s)" % (self.expr(n.elts[0], env), self.expr(n.elts[1], env))
+            return ("tuple2", self.expr(n.elts[0], env), self.expr(n.elts[1], env))
         if isinstance(n, ast.Call):
             return self.call(n, env)
         raise Untranslatable(type(n).__name__)
 
+    def python_object(self, obj, name):
+        """A global / builtin / class-attribute object as a symbolic value."""
+        if obj is None:
+            return ("noneLit",)
+        if obj is True or obj is False:
+            return ("boolLit", obj)
+        for tn, tag in TYPE_NAMES.items():
+            if obj is getattr(builtins, tn):
+                return ("tyLit", tag)
+        if isinstance(obj, types.ModuleType):
+            return ("@module", obj)
+        if isinstance(obj, types.BuiltinFunctionType) and getattr(obj, "__module__", None) in ("_operator", "operator"):
+            oname = obj.__name__
+            if oname in OPERATOR_FUNCS and getattr(operator, oname) is obj:
+                return ("@op", OPERATOR_FUNCS[oname])
+        for bname in ("len", "isinstance", "hasattr", "all", "any"):
+            if obj is getattr(builtins, bname):
+                return ("@builtin", bname)
+        if in_pedal(obj):
+            return ("@func", obj, None)
+        raise Untranslatable("name %s" % name)
+
+    def self_attribute(self, attr):
+        """`self.<attr>`: a method to call or a class attribute of the concrete assertion class."""
+        holder = None
+        for k in self.cls.__mro__:
+            if attr in k.__dict__:
+                holder = k
+                break
+        if holder is None:
+            raise Untranslatable("self.%s" % attr)
+        if self.assigned_on_instances(attr):
+            raise Untranslatable("self.%s is assigned on instances" % attr)
+        raw = holder.__dict__[attr]
+        if isinstance(raw, staticmethod):
+            fn = raw.__func__
+            if in_pedal(fn):
+                return ("@func", fn, None)
+            return self.python_object(fn, "self." + attr)
+        if isinstance(raw, (classmethod, property)):
+            raise Untranslatable("self.%s descriptor" % attr)
+        if isinstance(raw, types.FunctionType):
+            if attr == "get_output":
+                return ("@get_output",)
+            if in_pedal(raw):
+                return ("@func", raw, SELF)
+            raise Untranslatable("self.%s" % attr)
+        if raw is None or raw is True or raw is False or isinstance(raw, types.BuiltinFunctionType):
+            return self.python_object(raw, "self." + attr)
+        raise Untranslatable("self.%s" % attr)
+
+    def assigned_on_instances(self, attr):
+        """Is `self.<attr>` (or setattr) assigned anywhere in the classes the assertion inherits from?"""
+        for k in self.cls.__mro__:
+            if k is object:
+                continue
+            try:
+                tree = ast.parse(textwrap.dedent(inspect.getsource(k)))
+            except (OSError, TypeError, SyntaxError):
+                return True
+            for node in ast.walk(tree):
+                targets = []
+                if isinstance(node, ast.Assign):
+                    targets = node.targets
+                elif isinstance(node, (ast.AugAssign, ast.AnnAssign)):
+                    targets = [node.target]
+                for t in targets:
+                    for sub in ast.walk(t):
+                        if (isinstance(sub, ast.Attribute) and sub.attr == attr
+                                and isinstance(sub.value, ast.Name) and sub.value.id == "self"):
+                            return True
+                # (a setattr with a computed name - Feedback._finalize applying a pool's text overrides - is not
+                #  taken as an assignment of this attribute)
+                if (isinstance(node, ast.Call) and isinstance(node.func, ast.Name) and node.func.id == "setattr"
+                        and len(node.args) >= 2 and isinstance(node.args[0], ast.Name) and node.args[0].id == "self"
+                        and isinstance(node.args[1], ast.Constant) and node.args[1].value == attr):
+                    return True
+        return False
+
+    # ---- calls --------------------------------------------------------------------------
     def call(self, n, env):
-        f = n.func
-        if any(k.arg is None for k in n.keywords):
-            raise Untranslatable("**kwargs")
+        if any(k.arg is None for k in n.keywords) or any(isinstance(a, ast.Starred) for a in n.args):
+            raise Untranslatable("*args / **kwargs")
         kw = {k.arg: k.value for k in n.keywords}
-        if isinstance(f, ast.Name) and f.id not in env:
-            name = f.id
-            if name in ("len", "bool", "str", "unwrap_value") and len(n.args) == 1 and not kw:
-                ctor = {"len": ".len", "bool": ".bool_", "str": ".str_", "unwrap_value": ".unwrap"}[name]
-                return "(%s %s)" % (ctor, self.expr(n.args[0], env))
-            if name == "isinstance" and len(n.args) == 2 and not kw:
-                return "(.isinstance %s %s)" % (self.expr(n.args[0], env), self.expr(n.args[1], env))
-            if name == "hasattr" and len(n.args) == 2 and not kw:
-                if isinstance(n.args[1], ast.Name) and n.args[1].id == "_FIELDS":
-                    return "(.hasDataclassFields %s)" % self.expr(n.args[0], env)
-                raise Untranslatable("hasattr")
-            if name == "errors" and not kw:
-                sides = [self.side_of(a, env) for a in n.args]
-                if sides == ["left", "right"]:
-                    return ".errors2"
+        f = n.func
+        # super().condition(...)
+        if (isinstance(f, ast.Attribute) and isinstance(f.value, ast.Call) and isinstance(f.value.func, ast.Name)
+                and f.value.func.id == "super" and "super" not in env and not f.value.args and not f.value.keywords):
+            return self.call_super(f.attr, n.args, kw, env)
+        fv = self.val(f, env)
+        tag = fv[0]
+        if tag == "@builtin":
+            return self.call_builtin(fv[1], n, kw, env)
+        if tag == "tyLit" and fv[1] in ("str", "bool") and not (isinstance(f, ast.Name) and f.id in env):
+            return self.call_builtin(fv[1], n, kw, env)       # str(x), bool(x)
+        if tag == "@op":
+            return self.apply_operator(fv[1], [self.expr(a, env) for a in n.args], kw)
+        if tag == "@re.search":
+            if len(n.args) != 2 or kw:
+                raise Untranslatable("re.search arguments")
+            return ("reSearch", self.expr(n.args[0], env), self.expr(n.args[1], env))
+        if tag == "@lower":
+            if n.args or kw:
+                raise Untranslatable(".lower arguments")
+            return ("lower", fv[1])
+        if tag == "@get_output":
+            if len(n.args) != 1 or kw:
+                raise Untranslatable("get_output arguments")
+            side = self.side_of(n.args[0], env)
+            if not side:
+                raise Untranslatable("get_output argument")
+            return ("output", side)
+        if tag == "@func":
+            return self.call_function(fv[1], fv[2], n.args, kw, env)
+        raise Untranslatable("call %s" % ast.unparse(f))
+
+    def call_builtin(self, name, n, kw, env):
+        if name in ("len", "bool", "str") and len(n.args) == 1 and not kw:
+            ctor = {"len": "len", "bool": "bool_", "str": "str_"}[name]
+            return (ctor, self.expr(n.args[0], env))
+        if name == "isinstance" and len(n.args) == 2 and not kw:
+            return ("isinstance", self.expr(n.args[0], env), self.expr(n.args[1], env))
+        if name == "hasattr" and len(n.args) == 2 and not kw:
+            a = n.args[1]
+            is_fields = False
+            if isinstance(a, ast.Name) and a.id not in env:
+                found, obj = self.global_name(a.id)
+                is_fields = found and obj == "__dataclass_fields__"
+            elif isinstance(a, ast.Constant):
+                is_fields = a.value == "__dataclass_fields__"
+            if is_fields:
+                return ("hasDataclassFields", self.expr(n.args[0], env))
+            raise Untranslatable("hasattr")
+        if name in ("all", "any") and len(n.args) == 1 and not kw and isinstance(n.args[0], (ast.GeneratorExp, ast.ListComp)):
+            g = n.args[0]
+            if len(g.generators) == 1 and not g.generators[0].ifs and not g.generators[0].is_async:
+                c = g.generators[0]
+                if isinstance(c.target, ast.Name):
+                    m = self.membership_elt(g.elt, c.target.id, env)
+                    if m is not None:
+                        negated, hay = m
+                        all_in = ("allIn", self.expr(c.iter, env), hay)
+                        if name == "all" and not negated:
+                            return all_in                       # all(x in h for x in ns)
+                        if name == "any" and negated:
+                            return ("not_", all_in)             # any(x not in h for x in ns)
+            raise Untranslatable("%s(...)" % name)
+        raise Untranslatable("call %s" % name)
+
+    def apply_operator(self, kind, args, kw):
+        if kw:
+            raise Untranslatable("operator keywords")
+        if kind in ("not_", "truth"):
+            if len(args) != 1:
+                raise Untranslatable("operator arity")
+            return ("not_" if kind == "not_" else "bool_", args[0])
+        if len(args) != 2:
+            raise Untranslatable("operator arity")
+        if kind == "contains":
+            return ("cmp", "in_", args[1], args[0])
+        return ("cmp", kind, args[0], args[1])
+
+    def call_super(self, attr, args, kw, env):
+        if attr != self.funcdef.name and attr != "condition":
+            raise Untranslatable("super().%s" % attr)
+        mro = list(self.cls.__mro__)
+        if self.super_after not in mro:
+            raise Untranslatable("super()")
+        for k in mro[mro.index(self.super_after) + 1:]:
+            if attr in k.__dict__:
+                raw = k.__dict__[attr]
+                if not in_pedal(raw):
+                    raise Untranslatable("super().%s" % attr)
+                return self.call_function(raw, SELF, args, kw, env, owner=k)
+        raise Untranslatable("super().%s not found" % attr)
+
+    def call_function(self, fn, self_val, args, kw, env, owner=None):
+        """A primitive, or an inlined call of one of pedal's own plain functions."""
+        import pedal.utilities.comparisons as comparisons
+        import pedal.sandbox.result as result
+        import pedal.assertions.runtime as rt
+        if self_val is None:
+            if fn.__name__ == "errors" and fn.__module__ == rt.__name__:
+                if kw or not probe_errors(fn):
+                    raise Untranslatable("errors(...) does not test is_error of its arguments")
+                sides = [self.side_of(a, env) for a in args]
+                if sorted(sides, key=str) == ["left", "right"]:
+                    return ("errors2",)
                 if len(sides) == 1 and sides[0]:
-                    return "(.errors1 .%s)" % sides[0]
+                    return ("errors1", sides[0])
                 raise Untranslatable("errors(...) arguments")
-            if name == "equality_test":
+            if fn is result.unwrap_value:
+                if kw or len(args) != 1 or not probe_unwrap(fn):
+                    raise Untranslatable("unwrap_value")
+                return ("unwrap", self.expr(args[0], env))
+            if fn is comparisons.equality_test:
                 names = ["actual", "expected", "_exact_strings", "_delta"]
-                got = dict(zip(names, n.args))
+                if list(inspect.signature(fn).parameters)[:4] != names:
+                    raise Untranslatable("equality_test signature")
+                got = dict(zip(names, args))
                 for k, v in kw.items():
                     if k not in names or k in got:
                         raise Untranslatable("equality_test keyword")
                     got[k] = v
-                if set(got) != set(names):
+                if set(got) != set(names) or len(args) > 4:
                     raise Untranslatable("equality_test arity")
-                return "(.equalityTest %s %s %s %s)" % tuple(self.expr(got[k], env) for k in names)
-            if name == "all" and len(n.args) == 1 and not kw and isinstance(n.args[0], ast.GeneratorExp):
-                g = n.args[0]
-                if len(g.generators) == 1 and not g.generators[0].ifs and not g.generators[0].is_async:
-                    c = g.generators[0]
-                    if (isinstance(c.target, ast.Name) and isinstance(g.elt, ast.Compare) and len(g.elt.ops) == 1
-                            and isinstance(g.elt.ops[0], ast.In) and isinstance(g.elt.left, ast.Name)
-                            and g.elt.left.id == c.target.id):
-                        env2 = {k: v for k, v in env.items() if k != c.target.id}
-                        return "(.allIn %s %s)" % (self.expr(c.iter, env), self.expr(g.elt.comparators[0], env2))
-                raise Untranslatable("all(...)")
-            raise Untranslatable("call %s" % name)
-        if isinstance(f, ast.Attribute):
-            if (isinstance(f.value, ast.Name) and f.value.id == "re" and f.attr == "search" and len(n.args) == 2
-                    and not kw and "re" not in env):
-                return "(.reSearch %s %s)" % (self.expr(n.args[0], env), self.expr(n.args[1], env))
-            if (isinstance(f.value, ast.Name) and f.value.id == self.self_name and f.attr == "get_output"
-                    and len(n.args) == 1 and not kw):
-                side = self.side_of(n.args[0], env)
-                if side:
-                    return "(.output .%s)" % side
-                raise Untranslatable("get_output argument")
-            if f.attr == "lower" and not n.args and not kw:
-                return "(.lower %s)" % self.expr(f.value, env)
-            raise Untranslatable("method .%s" % f.attr)
-        raise Untranslatable("call")
+                return ("equalityTest",) + tuple(self.expr(got[k], env) for k in names)
+        # ---- inline ----
+        if self.depth >= MAX_INLINE_DEPTH:
+            raise Untranslatable("inlining too deep (%s)" % fn.__name__)
+        fd = function_ast(fn)
+        a = fd.args
+        if a.vararg or a.kwarg or a.posonlyargs:
+            raise Untranslatable("signature of %s" % fn.__name__)
+        params = [p.arg for p in a.args]
+        defaults = dict(zip(params[len(params) - len(a.defaults):], a.defaults))
+        for p, d in zip(a.kwonlyargs, a.kw_defaults):
+            params.append(p.arg)
+            if d is not None:
+                defaults[p.arg] = d
+        bound = {}
+        positional = [p.arg for p in a.args]
+        if self_val is not None:
+            if not positional:
+                raise Untranslatable("method without self")
+            bound[positional[0]] = self_val
+            positional = positional[1:]
+        if len(args) > len(positional):
+            raise Untranslatable("too many arguments for %s" % fn.__name__)
+        for p, arg in zip(positional, args):
+            bound[p] = self.val(arg, env)
+        for k, v in kw.items():
+            if k not in params or k in bound:
+                raise Untranslatable("keyword %s of %s" % (k, fn.__name__))
+            bound[k] = self.val(v, env)
+        saved = (self.globals, self.super_after, self.funcdef, self.depth)
+        self.globals = vars(sys.modules[fn.__module__])
+        if owner is not None:
+            self.super_after = owner
+        self.funcdef = fd
+        self.depth += 1
+        try:
+            for p in params:
+                if p not in bound:
+                    if p not in defaults:
+                        raise Untranslatable("missing argument %s of %s" % (p, fn.__name__))
+                    bound[p] = self.val(defaults[p], {})
+            env2 = {}
+            ids = []
+            for p in params:
+                v, i = self.bind(bound[p])
+                ids.append(i)
+                env2[p] = v
+            result_tree = self.block(list(fd.body), env2, self.fell_off)
+            self.check_used(ids, result_tree, "call of %s" % fn.__name__)
+            return result_tree
+        finally:
+            self.globals, self.super_after, self.funcdef, self.depth = saved
 
 
 def find_funcdef(cls):
@@ -214,14 +678,13 @@ def find_funcdef(cls):
             break
     else:
         return None, None
-    src = inspect.getsource(inspect.getmodule(owner))
-    tree = ast.parse(src)
-    for node in ast.walk(tree):
-        if isinstance(node, ast.ClassDef) and node.name == owner.__name__:
-            for item in node.body:
-                if isinstance(item, ast.FunctionDef) and item.name == "condition":
-                    return item, owner
-    return None, owner
+    fn = owner.__dict__["condition"]
+    if not isinstance(fn, types.FunctionType):
+        return None, owner
+    try:
+        return function_ast(fn), owner
+    except Untranslatable:
+        return None, owner
 
 
 def translate_class(cls):
@@ -229,10 +692,12 @@ def translate_class(cls):
     if fd is None:
         return '(.opaque "no condition source")', False
     try:
-        return CondTranslator(fd).run(), True
+        return render(CondTranslator(cls, owner, fd).run()), True
     except Untranslatable as e:
         src = ast.unparse(fd)
         return "(.opaque %s)" % lean_str("%s: %s" % (e, " ".join(src.split())[:200])), False
+    except Exception as e:          # a defect of this reader must never look like a fact about the code
+        return "(.opaque %s)" % lean_str("reader failed (%s: %s)" % (type(e).__name__, str(e)[:120])), False
 
 
 def assertion_classes():
@@ -283,6 +748,7 @@ def measure_guard():
 def translate():
     use_repo()
     import pedal.assertions.runtime as rt
+    _probe_cache.clear()
     classes = assertion_classes()
     lines = [
         "import PedalModel.AssertionsCond",
